@@ -57,12 +57,37 @@ def lit_value(key: Any, truth: bool, repl: Callable[[Tuple[Any, ...]], Optional[
         if x is None:
             return None
         return bool(x) == truth
-    if key[0] == "eq":
+    if key[0] in ("eq", "is"):
         a, b = replace_atoms(key[1], repl).const_value(), replace_atoms(key[2], repl).const_value()
-        if a is None or b is None:
-            return None
-        return (a == b) == truth
+        if a is not None and b is not None:
+            return (a == b) == truth
+        sa_, sb_ = _as_text(key[1], repl), _as_text(key[2], repl)
+        if sa_ is not None and sb_ is not None:
+            return (sa_ == sb_) == truth
+        return None
     return None
+
+
+def _as_text(p: Poly, repl: Callable[[Tuple[Any, ...]], Optional[Poly]]) -> Optional[str]:
+    """A string / template value whose holes all fold to constants."""
+    from .pyflow import tpl_shape
+
+    bad = []
+
+    def hole(h: Poly) -> str:
+        v = replace_atoms(h, repl).const_value()
+        if v is None:
+            inner = _as_text(h, repl)
+            if inner is None:
+                bad.append(h)
+                return "?"
+            return inner
+        return str(v)
+
+    t = tpl_shape(p, hole)
+    if t is None or bad:
+        return None
+    return t
 
 
 def feasible(paths: Sequence[Path], repl: Callable[[Tuple[Any, ...]], Optional[Poly]], ignore: Callable[[Any], bool] = lambda k: False) -> Tuple[List[Path], List[Any]]:
